@@ -17,6 +17,7 @@ Oracles
   layout-equivalence    metamorphic: the observations of the three layouts are identical (the WRAP value apart)
 """
 import io
+import os
 import logging
 
 from hypothesis import strategies as st
@@ -190,7 +191,19 @@ def curve_mnemonic_retyped(header_text):
         return False
 
 
-def check_layout(model, layout, tag, cc):
+def read_by_path(text):
+    """The text stored as a file in the encoding the platform gives text files, read through its path (what every tool does)."""
+    import locale
+    import tempfile
+    from TotalDepth.LAS.core import LASRead
+    with tempfile.TemporaryDirectory(prefix='vt_c09_') as d:
+        path = os.path.join(d, 'C09.las')
+        with open(path, 'w', encoding=locale.getpreferredencoding(False), newline='') as f:
+            f.write(text)
+        return LASRead.LASRead(path, 'C09')
+
+
+def check_layout(model, layout, tag, cc, by_path=False):
     """Renders and reads one layout.  Returns the observation for the equivalence oracle or None."""
     import numpy as np
     from TotalDepth.LAS.core import LASRead
@@ -199,7 +212,7 @@ def check_layout(model, layout, tag, cc):
     ncurves, nframes = len(model['C']), len(model['data'])
     wrap = bool(layout['wrap'])
     try:
-        las_file = LASRead.LASRead(io.StringIO(text), 'C09')
+        las_file = read_by_path(text) if by_path else LASRead.LASRead(io.StringIO(text), 'C09')
     except Exception as err:  # noqa
         if isinstance(err, LASRead.ExceptionLASReadSectionArray) and wrap and ncurves == 1 \
                 and 'array overflow' in str(err):
@@ -336,6 +349,28 @@ def check(case, cc):
         cc.cls('wrapped-single-curve', wrap and ncurves == 1)
         if wrap and ncurves >= 3 and nframes >= 2 and info['comment_in_data'] > 0 and colon_value:
             nt = True
+    # the same content read through a file path; one time in two with a character outside ASCII in a description and in
+    # the units of a curve (degree sign, micro sign: characters of the platform's text encoding)
+    if (ncurves + nframes) % 3 == 0:
+        import copy
+        import locale
+        m2, special = model, False
+        try:
+            '\xb0\xb5'.encode(locale.getpreferredencoding(False))
+            encodable = True
+        except (UnicodeError, LookupError):
+            encodable = False
+        if encodable and nframes % 2 == 0:
+            m2 = copy.deepcopy(model)
+            m2['W'][-1]['desc'] = (m2['W'][-1]['desc'] + ' \xb0C').strip()
+            if m2['C'][-1]['unit'] and not lasfmt.retypeable(m2['C'][-1]['unit']):
+                m2['C'][-1]['unit'] = '\xb5' + m2['C'][-1]['unit']
+            special = True
+        obs, _info, _cr = check_layout(m2, layouts[0], 'by-path' + (':non-ascii' if special else ''), cc, by_path=True)
+        cc.cls('read-by-path')
+        cc.cls('read-by-path:non-ascii', special)
+        if not special:
+            observations.append(('by-path', obs))
     # metamorphic: all layouts observe the same
     base = next(((t, o) for t, o in observations if o is not None), None)
     if base is not None:
